@@ -21,7 +21,6 @@
 (*   - offset of constant members, of public types that carry an explicit  *)
 (*     offset attribute, of constant fields;                               *)
 (*   - description / deprecated of a <ref> that does not state them;       *)
-(*   - presence of a composite field declared optional;                    *)
 (*   - value_type_tag of constant fields that are not numeric constants;   *)
 (*   - minValue of float/double when defaulted, explicit min/max/null of   *)
 (*     char types (lexeme ambiguity), character_encoding when absent.      *)
@@ -274,7 +273,9 @@ ActualPresence(f) ==
        IN CASE t.kind = "type" -> t.presence
             [] t.kind = "enum" -> IF f.presence = "constant" THEN "constant" ELSE "required"
             [] t.kind = "set" -> "required"
-            [] t.kind = "composite" -> IF f.presence = "required" THEN "required" ELSE ""
+            \* a composite field: nothing in SBE or in the documentation derives another
+            \* presence than the one the XML states (optional: nullness is carried by the members)
+            [] t.kind = "composite" -> IF f.presence \in {"required", "optional"} THEN f.presence ELSE ""
 
 \* representation type of a field and its tag
 FieldValueType(f) ==
@@ -282,8 +283,17 @@ FieldValueType(f) ==
   THEN IF f.presence = "constant"
        THEN T("value_type_form", "plain") \o T("value_type", "prim:" \o f.type) \o T("has_value_type_tag", "false")
        ELSE LET b == "builtin/" \o f.type \o (IF f.presence = "optional" THEN "_opt" ELSE "")
+                opt == f.presence = "optional"
             IN T("value_type_form", "plain") \o T("value_type", "tag:" \o b)
                \o T("has_value_type_tag", "true") \o T("value_type_tag", b)
+               \* the built-in type behind it carries the SBE defaults of the primitive type
+               \* (type_traits<value_type_tag>; the defaulted minValue of float/double is left out)
+               \o T("vt_presence", IF opt THEN "optional" ELSE "required") \o T("vt_primitive_type", f.type)
+               \o T("vt_length", "1")
+               \o Opt(~IsFp(f.type), T("vt_min_value", DefMin[f.type]))
+               \o T("vt_max_value", DefMax[f.type])
+               \o Opt(opt, T("vt_null_value", DefNull[f.type]))
+               \o T("vt_has_null_value", Bool(opt))
   ELSE LET t == TypeNamed(f.type)
            tp == "types/" \o f.type
            const == IsConstField(f)
